@@ -44,7 +44,7 @@ WORLDS = {
 
 # sessions per quick run (tuned to roughly a minute on 16 cores)
 QUICK_SESSIONS = {
-    'C01': 24000, 'C02': 10000, 'C03': 28000, 'C04': 18000, 'C05': 36000, 'C08': 3200, 'C09': 1400, 'C10': 2600,
+    'C01': 24000, 'C02': 10000, 'C03': 28000, 'C04': 18000, 'C05': 36000, 'C08': 3200, 'C09': 2400, 'C10': 2600,
     'C11': 18000, 'C12': 16000, 'C13': 16000, 'C14': 10000, 'C15': 10000, 'C16': 36000, 'C17': 28000, 'C19': 20000, 'C20': 7000,
 }
 CHUNK = {'tn': 8, 'gr': 50, 'kr': 40}
@@ -220,6 +220,8 @@ def shrink(session, prop, cls, budget_s=45.0):
             trials.append(('env.layout', None))
         if env.get('wprot'):
             trials.append(('env.wprot', False))
+        if env.get('globals'):
+            trials.append(('env.globals', None))
         for key, val in (('tol', 0.0), ('tol_split', 0.0), ('n', 1), ('numsweeps', 1), ('entries', 'complex'), ('exact_tie', False)):
             if key in op and op[key] != val:
                 trials.append((key, val))
@@ -464,7 +466,8 @@ def write_evidence(prop, tier, batch_seed, agg, reported, known_hits, det, wall,
         'components': {'real': ['all of pytenet (from /repo working tree)', 'numpy', 'scipy', 'LAPACK/BLAS (single-threaded)'],
                        'simulated_environment': ['LAPACK gauge choices (QR sign, SVD phase/rotation, eigenvector sign)', 'tie order of unstable sort',
                                                  'last-bit rounding of LAPACK results', 'OS entropy (default_rng)', 'caller memory layout / write protection',
-                                                 'backend failure (LinAlgError / MemoryError)', 'user callbacks (Krylov Afunc, automaton callables)'],
+                                                 'backend failure (LinAlgError / MemoryError)', 'user callbacks (Krylov Afunc, automaton callables)',
+                                                 'process-global state set by the caller (numpy error state, print options, warnings filter, global RNG state)'],
                        'stubs': []},
         'collateral_other_properties': agg['collateral'][:20],
         'known_findings_hit': known_hits,
